@@ -378,11 +378,14 @@ class Config:
             eff = self.spec_func(t.effect) if t.effect is not None else None
             return CallbackVal(t.name, eff, t.returns, t.raises)
         if isinstance(t, C.ListOf):
-            return path.alloc(LObj(None, path.fresh_sym(('seq', kind_of_T(t.t)), hint), t.flavor))
+            sq = path.fresh_sym(('seq', kind_of_T(t.t)), hint)
+            if t.maxlen is not None:
+                path.add_def(z3.Length(sq.t) <= t.maxlen)  # type invariant of a bounded deque
+            return path.alloc(LObj(None, sq, t.flavor, t.maxlen))
         if isinstance(t, C.TupleOf):
             return tuple(self.fresh(path, x, f'{hint}.{i}') for i, x in enumerate(t.ts))
         if isinstance(t, C.ConcList):
-            return path.alloc(LObj([self.fresh(path, t.t, f'{hint}[{i}]') for i in range(t.n)], flavor=t.flavor))
+            return path.alloc(LObj([self.fresh(path, t.t, f'{hint}[{i}]') for i in range(t.n)], flavor=t.flavor, maxlen=t.maxlen))
         if isinstance(t, C.EmptyDict):
             return path.alloc(DObj({}, path.import_native(t.default_factory) if t.default_factory else None))
         if isinstance(t, C.MapOf):
@@ -407,6 +410,8 @@ class Config:
             return path.alloc(Obj(asyncio.Event, {'_flag': path.fresh_sym('bool', hint + '._flag')}))
         if isinstance(t, C.ExtT):
             return t.fresh(self, path, hint)
+        if hasattr(t, 'fresh'):
+            return t.fresh(self, path, hint)  # extension point: type descriptors defined outside the core (pyvc/ext_*.py)
         raise Unsupported(f'fresh value of type {t!r}')
 
     def havoc_like(self, path, v, hint):
@@ -520,6 +525,8 @@ class Config:
                     elif isinstance(ft, C.ListOf) and isinstance(tgt, LObj):
                         tgt.sym = path.fresh_sym(('seq', kind_of_T(ft.t)), n)
                         tgt.items = None
+                        if tgt.maxlen is not None:
+                            path.add_def(z3.Length(tgt.sym.t) <= tgt.maxlen)
                     elif isinstance(ft, C.MapOf) and isinstance(tgt, MObj):
                         self.havoc_map(path, cur, n)
                     elif isinstance(ft, C.Event) and isinstance(tgt, Obj):
@@ -535,6 +542,8 @@ class Config:
             elif isinstance(ho, LObj):
                 if ho.sym is not None:
                     ho.sym = path.fresh_sym(ho.sym.k, 'lst')
+                    if ho.maxlen is not None:
+                        path.add_def(z3.Length(ho.sym.t) <= ho.maxlen)
                 else:
                     raise Unsupported('havoc of a concrete-spine list (declare ListOf in the class model)')
             elif isinstance(ho, MObj):
@@ -985,6 +994,10 @@ def verify(registry, top, tier='quick', max_paths=4000, collect_pre=True):
                 ob.info['headstate'] = getattr(path, 'headstate', None)
             ob.info['decisions'] = tuple(path.decisions)
             res.obligations.append(ob)
+    if res.paths == 0 and not res.undecided:
+        # every path died as infeasible: `requires` is unsatisfiable or an applied callee contract has an unsatisfiable
+        # postcondition -- nothing was verified, which must never read as a pass
+        res.undecided.append('no feasible path (vacuous): requires, or the postcondition of an applied callee contract, is unsatisfiable')
     res.feas_checks = explorer.feas_checks
     return res
 
